@@ -474,6 +474,9 @@ static int markAccessors(Module &M) {
     changed = false;
     for (auto &F : M) {
       if (F.isDeclaration() || F.isVarArg() || acc.count(&F)) continue;
+      // only private (static / static inline) helpers: a function with external linkage is a definition in one unit and a
+      // mere declaration in the others, so inlining it would make the per-unit views disagree with each other
+      if (!F.hasLocalLinkage()) continue;
       if (F.hasFnAttribute(Attribute::NoInline) || F.hasFnAttribute(Attribute::OptimizeNone)) continue;
       unsigned n = 0; bool ok = true;
       for (auto &BB : F) {
